@@ -30,7 +30,41 @@ func (x *Exec) entry(fn *ssa.Function) ([]Val, State) {
 	S.raw(fmt.Sprintf("(assert (> A0 %d))", maxGlobals))
 	st.Alloc = "A0"
 	var args []Val
+	// captured variables of a closure verified on its own are further inputs: non-nil pointers
+	// to the captured cells, pairwise distinct
+	type inVar interface {
+		Name() string
+		Type() types.Type
+	}
+	var ins []inVar
 	for _, p := range fn.Params {
+		ins = append(ins, p)
+	}
+	for _, fv := range fn.FreeVars {
+		ins = append(ins, fv)
+	}
+	for k, p := range ins {
+		if k >= len(fn.Params) {
+			l := x.vc.ls.of(p.Type())
+			v := make(Val, len(l.cells))
+			for i, ci := range l.cells {
+				n := fmt.Sprintf("fv_%s_%d", sanitize(p.Name()), i)
+				S.declConst(n, ci.kind == kBool)
+				v[i] = Cell{T: n, B: ci.kind == kBool}
+			}
+			x.typeFacts("true", p.Type(), v, &st)
+			S.raw("(assert " + not(eq(v[0].T, "0")) + ")")
+			x.vc.nonNil[v[0].T] = true
+			if u, ok := p.Type().Underlying().(*types.Pointer); ok {
+				x.validFacts(st.Mem, u.Elem(), v[0].T, v[1].T, "true", 2)
+			}
+			for _, b := range x.entryBinds {
+				S.raw("(assert " + not(eq(b[0].T, v[0].T)) + ")")
+				x.vc.markDistinct(b[0].T, v[0].T)
+			}
+			x.entryBinds = append(x.entryBinds, v)
+			continue
+		}
 		l := x.vc.ls.of(p.Type())
 		v := make(Val, len(l.cells))
 		for i, ci := range l.cells {
@@ -118,6 +152,7 @@ type RunOpts struct {
 	Setup     func(x *Exec) // extra declarations before execution
 	Loops     map[int]*LoopSpec
 	NoModular bool
+	EnvCalls  map[string]bool
 }
 
 func (e *Engine) verifyFunc(key string, withTrace bool, maxDepth int) (fr *FuncResult) {
@@ -136,7 +171,7 @@ func (e *Engine) verifyFuncOpts(key string, o RunOpts) (fr *FuncResult) {
 	vc := &VC{S: newScript(), ls: newLayouts(), mapFams: map[string]*mapFam{}, nonNil: map[string]bool{},
 		mem: map[string]*memNode{}, allocP: map[string][]string{}, bornLt: map[string]string{}, isAlloc: map[string]bool{}, allocAfter: map[string]string{}, distinct: map[[2]string]bool{}, escaped: map[string]bool{}}
 	fr.VC = vc
-	x := &Exec{eng: e, vc: vc, top: fn, topC: ct, maxDepth: maxDepth, nonNil: vc.nonNil, over: o.Over, opaque: o.Opaque, loopSpecs: o.Loops, noModular: o.NoModular}
+	x := &Exec{eng: e, vc: vc, top: fn, topC: ct, maxDepth: maxDepth, nonNil: vc.nonNil, over: o.Over, opaque: o.Opaque, loopSpecs: o.Loops, noModular: o.NoModular, envCalls: o.EnvCalls}
 	fr.Exec = x
 	if withTrace {
 		x.trace = newTrace()
@@ -179,7 +214,7 @@ func (e *Engine) verifyFuncOpts(key string, o RunOpts) (fr *FuncResult) {
 			vc.cover(key+"#cover:requires", "true", "")
 		}
 	}
-	res, out, outReach, frm := x.run(fn, ct, args, nil, st, "true", 0, true)
+	res, out, outReach, frm := x.run(fn, ct, args, x.entryBinds, st, "true", 0, true)
 	fr.Frame, fr.Res, fr.Out, fr.OutReach = frm, res, out, outReach
 	if ct != nil && outReach != "false" {
 		env := x.specEnv(frm, &out, nil, 0)
@@ -219,6 +254,13 @@ func (e *Engine) verifyFuncOpts(key string, o RunOpts) (fr *FuncResult) {
 				vc.oblige(fmt.Sprintf("%s#post.%d%s", key, k+1, caseNames[ci]), "post", and(outReach, cs), t, fmt.Sprintf("%s:%d", shortPath(ct.File), en.Line))
 			}
 		}
+		// a site assertion that matches no call site says nothing (renamed callee, wrong ordinal):
+		// reported as a failed obligation rather than silently dropped
+		for k, sa := range ct.Asserts {
+			if sa.Cl.Text != "false" && !sa.Optional && x.assertHits[k] == 0 {
+				vc.oblige(fmt.Sprintf("%s#site-unmatched:%s#%d.%d", key, sa.Callee, sa.Ord, k+1), "site", "true", "false", fmt.Sprintf("%s:%d", shortPath(ct.File), sa.Cl.Line))
+			}
+		}
 		// the exit must be reachable under the hypotheses (vacuity guard)
 		vc.cover(key+"#cover:exit", outReach, "")
 	}
@@ -249,7 +291,11 @@ func (x *Exec) validFacts(mem string, t types.Type, ref, off string, guard strin
 		case kOff:
 			S.fact(guard, sx("<=", "0", at(i)))
 		case kRef:
-			S.fact(guard, and(sx("<=", "0", at(i)), sx("<", at(i), "A0")))
+			bound := "A0"
+			if x.refBound != "" {
+				bound = x.refBound
+			}
+			S.fact(guard, and(sx("<=", "0", at(i)), sx("<", at(i), bound)))
 		case kLen:
 			S.fact(guard, and(sx("<=", "0", at(i)), sx("<=", at(i), at(i+1)), sx("<=", at(i+1), "1099511627776"),
 				implies(eq(at(i-2), "0"), eq(at(i+1), "0"))))
